@@ -41,6 +41,18 @@ INCLUDE_PENDING_FINDINGS = False
 # Kept out of the default stream: the exponents of that family are made non-negative.
 INCLUDE_PENDING_NP_NEGPOW = False
 
+# MixedColumn `+` with text on one side and a number on the other: the text of the number is its Python str() --
+# exact decimal digits for an int of any size (64-bit ids, ns timestamps: not binary64 values), shortest round-trip
+# repr for a float (17 significant digits where needed), an integral float as the int it is stored as
+TBIGINTS = [2 ** 53 + 1, -(2 ** 53 + 1), 2 ** 53 + 3, 2 ** 54 + 2, 10 ** 16 + 1, 10 ** 17 + 1, -(10 ** 17 + 1), 2 ** 62 + 1,
+            -(2 ** 62) - 3, 1700000000123456789, 2 ** 60 + 1, -(2 ** 60) - 1, 10 ** 18 + 7, 2 ** 63 - 1, -(2 ** 63) + 1,
+            9007199254740993, 123456789012345678]
+TBEYOND = [2 ** 63 + 1, 2 ** 64 + 1, -(2 ** 64) - 1, 10 ** 20 + 1, 10 ** 22 + 1, -(10 ** 19) - 3]    # Python ints only
+TFLOATS = [0.1 + 0.2, 1 / 3, 0.1, 2.5, -2.5, -0.0, 0.0, 1e22, 1e16, 2.0 ** 53, 2.0 ** 53 + 2, -(2.0 ** 62), NAN, INF, -INF,
+           5e-324, 123456789.12345679, 1e-07, 1.0000000000000002, 4.35 * 100, 2.0 ** 70, 1e21, 1e-5, 9007199254740993.0,
+           0.1 * 3, 1.1 * 1.1, -1e300 * 1e-290]
+TTEXTS = ['id', 'a', '', 'é', 'x y', '_x', '#', '-', '1e', 'n°']
+
 
 def coltype(kind):
     from datamatrix import MixedColumn, FloatColumn, IntColumn
@@ -162,7 +174,7 @@ def col_lit(kind, ids, cells):
 class C13:
     id = 'C13'
     props_file = 'theories/Props/C13.v'
-    kernel_files = ['KArith.v', 'KCheck.v']
+    kernel_files = ['KArith.v', 'KCheck.v', 'KCsv.v']
     oracle_vos = ['theories/Run/SC13.vo']
     model_vos = ['theories/Run/RC13.vo']
     oracle_imports = ['From DM Require Import Run.SC13.']
@@ -194,14 +206,23 @@ class C13:
             'floats, FloatColumn cells that are negative zeros; (c) col @ f / map_(f, col) with functions that tell equal cells apart '
             '(copysign, atan2(x, -1), sign bit, int-or-float) on columns holding +0.0 and -0.0, k and float(k) side by side (such '
             'cells cannot be assigned; they are produced by per-row factors). '
+            'Family textcat: MixedColumn + with text on one side and a number on the other whose str() a float conversion would '
+            'change -- ints beyond 2**53 and beyond 2**63, floats with 17 significant digits, -0.0, 1e22, 2.0**70, nan, +-inf -- as '
+            'cell, scalar, NumPy scalar, numeric text, list / tuple item and Mixed- / Int- / FloatColumn operand, both operand orders, '
+            'all row orders, also on derived columns with NumPy-scalar cells. Family assignback: the result (of col o x, x o col, '
+            'col @ f, map_, SeriesColumn o x) is assigned back ON THE SAME TABLE under the name of the column operand, of the operand '
+            'column, or of a second name (dm.b = dm.c) of one of them, while the harness holds the operand column objects: the rows '
+            'read the result (judged in Coq like dm.r = result) and the held objects / the other name still read the original cells. '
             'non-trivial = the result differs from the source cells; distinct by full input')
     trusted_base = [
         'Coq 8.16.1 kernel (coqc; vm_compute for evaluating cases; no native_compute)',
         'translator /verif/translate/gen_arith.py (operator table, per-cell code of BaseColumn/NumericColumn/IntColumn._operate, '
-        '_map) -> Gen/KArith.v, and gen_checktype.py -> Gen/KCheck.v',
+        '_map) -> Gen/KArith.v, gen_checktype.py -> Gen/KCheck.v, and gen_csv.py -> Gen/KCsv.v (k_safe_decode: the decision chain '
+        'of py3compat.safe_decode, which BaseColumn._operate turns both operands of a text + into text with)',
         'Spec/Arith.v exact_op: hand-written exact model of Python/NumPy scalar arithmetic on ints and dyadics (result type, '
-        'int -> float promotion, floor semantics of // and %, IEEE pow units), exercised by the correspondence; str(float) supplied by '
-        'CPython as a table',
+        'int -> float promotion, floor semantics of // and %, IEEE pow units), exercised by the correspondence; str(float) of finite '
+        'non-integral floats supplied by CPython as a table; Base/CsvPy.v b_str / show_int / show_flt: hand-written str() of the '
+        'classified objects',
         'Base/Float64Py.v + Spec/ArithIeee.v: hand-written model of Python float semantics (float(int), int / int as one rounding of the '
         'exact quotient, CPython float_divmod = NumPy npy_divmod transcribed, fmod / floor / rounding on Z) over the four basic '
         'operations. Coq primitive floats (PrimFloat.add/sub/mul/div, of_uint63, ldshiftexp, frshiftexp, normfr_mantissa, opp, abs, '
@@ -319,12 +340,15 @@ class C13:
             dm = self._build(inp)
         except Exception:
             return None                     # the column itself cannot hold these cells
+        assign = inp.get('assign')
         try:
+            self._alias(dm, assign, 'c')
             col, ocol = self._cols(inp, dm)
         except Exception:
             return None
         if kind_of(col) != kind:
             return None
+        target = self._target(assign, 'c')
         raw0 = list(col)
         # a derived column whose cells are NumPy scalars (col @ np.abs): the cells are judged as the numbers they stand for
         relaxed = has_np(raw0)
@@ -375,8 +399,10 @@ class C13:
                 #  DataMatrix._set_col, which is not this property's subject -- reported separately)
                 if pyfail is None and inp.get('order', ['natural'])[0] != 'colslice':
                     try:
-                        dm.r = r
-                        assigned = [dm[i].r for i in range(len(dm))]
+                        # under a new name, or (assign) under the name of an operand / of an alias of an operand while
+                        # the operand column objects are still held: they must not change (checked below)
+                        dm[target] = r
+                        assigned = [dm[i][target] for i in range(len(dm))]
                         a_lits = [pyobs.val(v) for v in assigned]
                         if any(l is None for l in a_lits):
                             pyfail = 'cells read after assigning the result back are not plain values'
@@ -395,8 +421,10 @@ class C13:
                                 # no cell was re-typed by the assignment: judged in Coq against the specified cells too
                                 assigned_lit = (L.lst(L.N(int(i)) for i in dm._rowid), L.lst(a_lits))
                         src_rowwise = [dm[i].c for i in range(len(dm))]
-                        if col is dm.c and not same_lits(src_rowwise, cells0):
+                        if (col is dm.c or assign == 'alias') and not same_lits(src_rowwise, cells0):
                             pyfail = pyfail or 'the source column changed when the result was assigned back'
+                        if assign == 'alias_other' and not same_lits([dm[i].o for i in range(len(dm))], xsnap):
+                            pyfail = pyfail or 'the operand column changed when the result was assigned to its second name'
                     except Exception as e:      # noqa: BLE001
                         pyfail = 'assigning the result back failed: %r' % (e,)
         # operands unchanged
@@ -437,9 +465,25 @@ class C13:
             'tags': [kind, op, 'x_o_col' if refl else 'col_o_x', 'operand:' + self._opclass(inp['operand']),
                      'order:' + inp.get('order', ['natural'])[0], 'rows:%d' % len(cells0)] + (['derived_column'] if inp.get('pre') else []) + (
                      ['numpy_cells'] if relaxed else []) + (
-                     ['family:' + inp['family']] if inp.get('family') else []) + [
+                     ['family:' + inp['family']] if inp.get('family') else []) + (
+                     ['assign:' + assign] if assign else []) + [
                      'outcome:' + ('raise' if out[0] == 'exn' else 'ok')] + sorted(cls) + ([] if judge else ['malformed']),
         }
+
+    @staticmethod
+    def _alias(dm, assign, name):
+        """dm.b = dm.<operand>: a second name for the same column object (DataMatrix._set_col keeps the object when it is
+        a column of this table with matching rows)"""
+        if assign == 'alias':
+            dm.b = dm[name]
+        elif assign == 'alias_other':
+            dm.b = dm.o
+
+    @staticmethod
+    def _target(assign, name):
+        """the name under which the result is assigned back: a new one, the operand's own name (the operand object is
+        held by the harness), the operand column's name, or the second name of one of them"""
+        return {None: 'r', 'self': name, 'alias': 'b', 'other': 'o', 'alias_other': 'b'}[assign]
 
     def _opclass(self, opd):
         if opd['t'] == 'scalar':
@@ -464,7 +508,9 @@ class C13:
             dm = self._build(inp)
         except Exception:
             return None
+        assign = inp.get('assign')
         try:
+            self._alias(dm, assign, 'c')
             col, _o = self._cols(inp, dm)
         except Exception:
             return None
@@ -504,6 +550,29 @@ class C13:
                 obs_lit = '(Ok %s)' % r_lit
             if r is col:
                 pyfail = pyfail or 'map returned the source column itself'
+            if assign and pyfail is None and col is dm.c:
+                # dm.c = col @ f (or under a second name of the column) while the column object is held: the rows read
+                # what assigning the cells of the result as a list gives, and the held column keeps its cells (below)
+                target = self._target(assign, 'c')
+                try:
+                    from datamatrix import DataMatrix as _DM
+                    refdm = _DM(length=len(rcells))
+                    refdm.r = type(r)
+                    refdm.r = list(rcells)
+                    want = ('ok', list(refdm.r))
+                except Exception as e:      # noqa: BLE001
+                    want = ('exn', pyobs.exn_name(e))
+                try:
+                    dm[target] = r
+                    got = ('ok', [dm[i][target] for i in range(len(dm))])
+                except Exception as e:      # noqa: BLE001
+                    got = ('exn', pyobs.exn_name(e))
+                if got[0] != want[0] or (got[0] == 'ok' and not same_vals(got[1], want[1])) or (got[0] == 'exn' and got[1] != want[1]):
+                    pyfail = 'assigning the map result back gives %r, assigning its cells as a list gives %r' % (got, want)
+                else:
+                    observed['assigned_rowwise'] = [pyobs.jsonable(v) for v in got[1]] if got[0] == 'ok' else got[1]
+                if assign == 'alias' and not same_lits([plain(v) for v in dm.c], cells0):
+                    pyfail = pyfail or 'the source column changed when the map result was assigned to its second name'
         now0 = list(col)
         if not same_lits([plain(v) for v in now0], cells0) or [type(v) for v in now0] != [type(v) for v in raw0] \
                 or [int(i) for i in col._rowid] != ids0:
@@ -526,6 +595,7 @@ class C13:
                      'order:' + inp.get('order', ['natural'])[0], 'outcome:' + ('raise' if out[0] == 'exn' else 'ok')] + (
                      ['derived_column'] if inp.get('pre') else []) + (['numpy_cells'] if relaxed else []) + (
                      ['family:' + inp['family']] if inp.get('family') else []) + (
+                     ['assign:' + assign] if assign else []) + (
                      ['cells:both_zeros'] if self._both_zeros(cells0) else []) + (
                      ['cells:int_and_equal_float'] if self._int_and_float(cells0) else []),
         }
@@ -552,6 +622,12 @@ class C13:
         elif order[0] == 'sorted':
             dm.key = list(order[1])
             dm = ops.sort(dm, by=dm.key)
+        assign = inp.get('assign')
+        try:
+            self._alias(dm, assign, 's')
+        except Exception:
+            return None
+        target = self._target(assign, 's')
         col = dm.s
         ocol = dm.o if opd['t'] == 'col' else None
         # column-level slices / index lists: the series column stays attached to the (longer) table
@@ -616,10 +692,15 @@ class C13:
                     pyfail = 'the result shares its samples with the source column'
                 if pyfail is None and len(r) == len(dm) and order[0] not in ('colslice', 'colrange'):
                     try:
-                        dm.r = r
+                        # under a new name, or (assign) under the name / a second name of the operand column, which the
+                        # harness still holds: it must keep its samples (checked below)
+                        dm[target] = r
                         for i in range(len(dm)):
-                            if not np.array_equal(np.asarray(dm[i].r, dtype=float), np.array(rrows[i]), equal_nan=True):
-                                pyfail = 'after dm.r = result, row %d does not hold result %d' % (i, i)
+                            if not np.array_equal(np.asarray(dm[i][target], dtype=float), np.array(rrows[i]), equal_nan=True):
+                                pyfail = 'after dm.%s = result, row %d does not hold result %d' % (target, i, i)
+                        if assign == 'alias' and [[L.fl(float(v)) for v in dm[i].s] for i in range(len(dm))] != \
+                                [[L.fl(v) for v in row] for row in rows0]:
+                            pyfail = pyfail or 'the series column changed when the result was assigned to its second name'
                         if [int(i) for i in dm._rowid] != rids:
                             pyfail = pyfail or 'the result rows are not the rows of the table'
                     except Exception as e:      # noqa: BLE001
@@ -649,7 +730,7 @@ class C13:
                      ('_per_row' if opd['t'] == 'vec' and len(opd['vs']) == n else '_per_sample' if opd['t'] == 'vec' else ''),
                      'series_rows_eq_depth' if n == depth else 'series_rows_ne_depth',
                      'order:' + order[0], 'outcome:' + ('raise' if out[0] == 'exn' else 'ok')] + (
-                     ['family:' + inp['family']] if inp.get('family') else []),
+                     ['family:' + inp['family']] if inp.get('family') else []) + (['assign:' + assign] if assign else []),
         }
 
     def _series_case(self, rng, op, refl, form, order):
@@ -1092,6 +1173,104 @@ class C13:
         return {'mode': 'map', 'kind': kind, 'cells': [pyobs.enc(v) for v in cells], 'f': fname, 'via': via,
                 'order': ordv, 'pre': steps, 'family': 'eqcells'}
 
+    # ---- MixedColumn `+` between text and numbers whose str() is not what a float conversion would give
+    TEXTCAT_FORMS = ['text', 'text', 'int', 'float', 'numeric_text', 'list', 'tuple']
+    TEXTCAT_FORMS_COL = ['np_int64', 'np_float64', 'col_KMixed', 'col_KMixed', 'col_KInt', 'col_KFloat']
+
+    def _textcat_case(self, rng, refl, form, order, n):
+        """text + number / number + text (refl: the operand on the left): big ints, floats with 17 significant digits,
+        -0.0, 1e22, nan / inf as cells, as scalar, as items of a list / tuple, as cells of a Mixed- / Int- / FloatColumn
+        operand.  Rows where both sides are numbers (ordinary addition) and both are text are mixed in."""
+        ordv = self._order(rng, n, order)
+        m = len(ordv[1]) if ordv[0] == 'colslice' else n
+        npish = form in ('np_int64', 'np_float64', 'col_KInt', 'col_KFloat')
+        pre = None
+        if form == 'text' and rng.random() < 0.3:
+            # cells that are NumPy scalars (a derived column): np.int64(2**53 + 1) is written with all its digits too
+            pre = [{'k': 'map', 'f': rng.choice(['np_scalar', 'np_int_only']), 'via': rng.choice(['matmul', 'map_'])}]
+
+        def number(cls='any', py_only=True):
+            if cls == 'int' or (cls == 'any' and rng.random() < 0.6):
+                c = rng.random()
+                if py_only and c < 0.15:
+                    return rng.choice(TBEYOND)
+                return rng.choice(TBIGINTS) if c < 0.9 else rng.randint(-12, 12)
+            return rng.choice(TFLOATS)
+
+        def text():
+            return rng.choice(TTEXTS) if rng.random() > 0.1 else None
+
+        def small():
+            return rng.choice([0, 1, -3, 7, 12, 2.5])
+        if form == 'text':
+            cells = [number(py_only=pre is None) if rng.random() < 0.8 else text() for _ in range(n)]
+            opd = {'t': 'scalar', 'v': pyobs.enc(rng.choice(TTEXTS))}
+        elif form in ('int', 'float', 'numeric_text', 'np_int64', 'np_float64'):
+            # a number + NumPy scalar is NumPy's arithmetic (int64 overflow): number cells stay small there
+            cells = [text() if rng.random() < 0.8 else (small() if npish else number()) for _ in range(n)]
+            if form == 'int':
+                v = number('int')
+            elif form == 'float':
+                v = number('float')
+            elif form == 'np_int64':
+                v = np.int64(number('int', py_only=False))
+            elif form == 'np_float64':
+                v = np.float64(number('float'))
+            else:
+                v = number('any')
+                v = rng.choice(['%s', ' %s', '%s ']) % repr(v if (v == v and abs(v) != INF) else rng.choice(TBIGINTS))
+            opd = {'t': 'scalar', 'v': pyobs.enc(v)}
+        else:
+            cells, xs = [], []
+            for _ in range(n):
+                c = rng.random()
+                if form in ('col_KInt', 'col_KFloat'):
+                    cells.append(text() if c < 0.85 else small())
+                    xs.append(number('int', py_only=False) if form == 'col_KInt' else number('float'))
+                elif c < 0.42:
+                    cells.append(number())
+                    xs.append(text())
+                elif c < 0.84:
+                    cells.append(text())
+                    xs.append(number())
+                elif c < 0.92:
+                    cells.append(text())
+                    xs.append(text())
+                else:
+                    cells.append(number())
+                    xs.append(number())
+            if form in ('list', 'tuple'):
+                # item i meets the cell that sits in position i when the operation is made
+                src = self._row_sources(ordv, n)
+                opd = {'t': 'seq', 'as': form, 'vs': [pyobs.enc(xs[j]) for j in src]}
+            else:
+                opd = {'t': 'col', 'kind': form[4:], 'cells': [pyobs.enc(v) for v in xs]}
+        inp = {'kind': 'KMixed', 'cells': [pyobs.enc(v) for v in cells], 'op': 'Add', 'refl': refl, 'operand': opd,
+               'order': ordv, 'family': 'textcat'}
+        if pre:
+            inp['pre'] = pre
+        return inp
+
+    # ---- the result assigned back ON THE SAME TABLE under the name of an operand (or of a second name of it) while
+    #      the operand column objects are held: result i in row i, and the operands still read their original cells
+    ASSIGN_MODES = ['self', 'alias', 'other', 'alias_other']
+
+    def _assign_case(self, rng, kind, op, refl, assign, order, n):
+        if assign in ('other', 'alias_other'):
+            form = 'col_' + kind            # the operand column has the type of the result
+        else:
+            form = rng.choice(self.forms(kind, op, refl))
+            if refl and form == 'text' and op == 'Mod':
+                form = 'int'
+        if op in ROPS and rng.random() < 0.25 and form in self.round_forms(refl):
+            inp = self._round_case(rng, kind, op, refl, form, order, n)
+        else:
+            inp = self._case(rng, kind, op, refl, form, order, n)
+        inp.pop('pre', None)
+        inp['assign'] = assign
+        inp['family'] = 'assignback'
+        return inp
+
     def round_forms(self, refl):
         fs = ['int', 'float', 'float', 'numeric_text', 'list', 'tuple']
         if not refl:
@@ -1215,6 +1394,34 @@ class C13:
                     for order in orders + ['colslice']:
                         for _ in range(1 if tier == 'quick' else 4):
                             add(self._eqcells_case(rng, kind, fname, via, order, rng.choice([3, 4, 6])))
+        # MixedColumn + between text and numbers that a float conversion would change (ints beyond 2**53, 17 digits)
+        for refl in (False, True):
+            for form in self.TEXTCAT_FORMS + ([] if refl else self.TEXTCAT_FORMS_COL):
+                for order in orders + ['colslice']:
+                    for _ in range(1 if tier == 'quick' else 5):
+                        add(self._textcat_case(rng, refl, form, order, rng.choice([3, 4, 6])))
+        # the result assigned back under the name of an operand / of a second name of an operand, operands held
+        for kind in KINDS:
+            for assign in self.ASSIGN_MODES:
+                for op in OPS:
+                    for refl in ((False,) if assign in ('other', 'alias_other') else (False, True)):
+                        for _ in range(1 if tier == 'quick' else 4):
+                            add(self._assign_case(rng, kind, op, refl, assign, rng.choice(orders), rng.choice([3, 4, 6])))
+            for assign in ('self', 'alias'):
+                for fname in rng.sample(sorted(FUNCS), 6 if tier == 'quick' else len(FUNCS)):
+                    n = rng.choice([3, 4, 6])
+                    add({'mode': 'map', 'kind': kind, 'cells': [pyobs.enc(v) for v in self._cells(rng, kind, n, 'Add', False)],
+                         'f': fname, 'via': rng.choice(['matmul', 'map_']), 'order': self._order(rng, n, rng.choice(orders)),
+                         'assign': assign, 'family': 'assignback'})
+        for op in OPS:
+            for refl in (False, True):
+                for assign in ('self', 'alias'):
+                    for _ in range(1 if tier == 'quick' else 4):
+                        form = rng.choice(['scalar', 'vec_row', 'vec_sample', 'mat'] + ([] if refl else ['col_KFloat', 'col_KInt']))
+                        inp = self._series_case(rng, op, refl, form, rng.choice(orders))
+                        inp['assign'] = assign
+                        inp['family'] = 'assignback'
+                        add(inp)
         # col @ f / map_(f, col) on derived columns (NumPy-scalar cells)
         for kind in KINDS:
             for fname in sorted(FUNCS):
@@ -1254,6 +1461,10 @@ class C13:
         if inp.get('pre'):
             c = dict(inp)
             del c['pre']
+            yield c
+        if inp.get('assign') in ('alias', 'alias_other'):
+            c = dict(inp)
+            c['assign'] = 'self' if inp['assign'] == 'alias' else 'other'
             yield c
         if inp.get('order', ['natural'])[0] == 'colslice':
             return
